@@ -118,6 +118,35 @@ theorem groupStep_inv {s : HG} {es : List PyId} {gs : List (List PyId)} (h : GIn
       · simp only [List.mem_singleton] at hx; subst hx
         exact ⟨[x], by simp, by simp⟩
 
+/-- `groupStep` on non-empty groups, spelled with `ghead` -/
+theorem groupStep_eq {s : HG} {gs : List (List PyId)} (hne : ∀ g ∈ gs, g ≠ []) (e : PyId) :
+    groupStep s gs e =
+      if gs.any (fun g => sameSet (s.mem (ghead g)) (s.mem e)) = true
+      then gs.map (fun g => if sameSet (s.mem (ghead g)) (s.mem e) = true then g ++ [e] else g)
+      else gs ++ [[e]] := by
+  unfold groupStep
+  have h1 : gs.any (fun g => match g with | r :: _ => sameSet (s.mem r) (s.mem e) | [] => false) =
+      gs.any (fun g => sameSet (s.mem (ghead g)) (s.mem e)) := by
+    rw [Bool.eq_iff_iff]; simp only [List.any_eq_true]
+    constructor
+    · rintro ⟨g, hg, hm⟩
+      cases g with
+      | nil => exact absurd rfl (hne [] hg)
+      | cons r t => exact ⟨r :: t, hg, hm⟩
+    · rintro ⟨g, hg, hm⟩
+      cases g with
+      | nil => exact absurd rfl (hne [] hg)
+      | cons r t => exact ⟨r :: t, hg, hm⟩
+  have h2 : gs.map (fun g => match g with
+      | r :: _ => if sameSet (s.mem r) (s.mem e) then g ++ [e] else g
+      | [] => g) = gs.map (fun g => if sameSet (s.mem (ghead g)) (s.mem e) = true then g ++ [e] else g) := by
+    apply List.map_congr_left
+    intro g hg
+    cases g with
+    | nil => exact absurd rfl (hne [] hg)
+    | cons r t => rfl
+  rw [h1, h2]
+
 theorem groupDups_inv (s : HG) : GInv s s.edges (groupDups s) := by
   rw [groupDups_eq]
   have key : ∀ (l es : List PyId) (gs : List (List PyId)), GInv s es gs → GInv s (es ++ l) (l.foldl (groupStep s) gs) := by
